@@ -1,0 +1,68 @@
+//go:build verif
+
+package tubes
+
+// Encode/decode wrappers for the unexported frame types (verification harness only).
+
+// VerifFrame mirrors the value fields of frame.
+type VerifFrame struct {
+	AckNo      uint32
+	FrameNo    uint32
+	DataLength uint16
+	REQ, RESP  bool
+	REL, ACK   bool
+	FIN, RTR   bool
+	TubeID     byte
+	Data       []byte
+}
+
+// VerifInitiateFrame mirrors the value fields of initiateFrame.
+type VerifInitiateFrame struct {
+	FrameNo    uint32
+	TubeID     byte
+	TubeType   TubeType
+	Data       []byte
+	DataLength uint16
+	REQ, RESP  bool
+	REL, ACK   bool
+	FIN, RTR   bool
+}
+
+// VerifFrameToBytes is frame.toBytes.
+func VerifFrameToBytes(v VerifFrame) []byte {
+	f := frame{
+		ackNo: v.AckNo, frameNo: v.FrameNo, dataLength: v.DataLength, tubeID: v.TubeID, data: v.Data,
+		flags: frameFlags{REQ: v.REQ, RESP: v.RESP, REL: v.REL, ACK: v.ACK, FIN: v.FIN, RTR: v.RTR},
+	}
+	return f.toBytes()
+}
+
+// VerifFrameFromBytes is fromBytes.
+func VerifFrameFromBytes(b []byte) (VerifFrame, error) {
+	f, err := fromBytes(b)
+	if err != nil || f == nil {
+		return VerifFrame{}, err
+	}
+	return VerifFrame{
+		AckNo: f.ackNo, FrameNo: f.frameNo, DataLength: f.dataLength, TubeID: f.tubeID, Data: f.data,
+		REQ: f.flags.REQ, RESP: f.flags.RESP, REL: f.flags.REL, ACK: f.flags.ACK, FIN: f.flags.FIN, RTR: f.flags.RTR,
+	}, nil
+}
+
+// VerifInitiateFrameToBytes is initiateFrame.toBytes.
+func VerifInitiateFrameToBytes(v VerifInitiateFrame) []byte {
+	f := initiateFrame{
+		frameNo: v.FrameNo, tubeID: v.TubeID, tubeType: v.TubeType, data: v.Data, dataLength: v.DataLength,
+		flags: frameFlags{REQ: v.REQ, RESP: v.RESP, REL: v.REL, ACK: v.ACK, FIN: v.FIN, RTR: v.RTR},
+	}
+	return f.toBytes()
+}
+
+// VerifInitiateFrameFromBytes is fromInitiateBytes.
+func VerifInitiateFrameFromBytes(b []byte) VerifInitiateFrame {
+	f := fromInitiateBytes(b)
+	return VerifInitiateFrame{
+		FrameNo: f.frameNo, TubeID: f.tubeID, TubeType: f.tubeType, Data: f.data, DataLength: f.dataLength,
+		REQ: f.flags.REQ, RESP: f.flags.RESP, REL: f.flags.REL, ACK: f.flags.ACK, FIN: f.flags.FIN, RTR: f.flags.RTR,
+	}
+}
